@@ -976,6 +976,9 @@ func callBuiltin(caller *frame, callpos token.Pos, fn *ssa.Builtin, args []value
 	case "delete": // delete(map[K]value, K)
 		switch m := args[0].(type) {
 		case *hashmap:
+			if caller != nil && caller.i.race != nil {
+				caller.i.raceMap(caller, m, true, callpos)
+			}
 			m.delete(args[1])
 		default:
 			panic(fmt.Sprintf("illegal map type: %T", m))
